@@ -55,6 +55,13 @@ type keySharePrivateKeys struct {
 	ecdhe      *ecdh.PrivateKey
 	mlkem      *mlkem.DecapsulationKey768
 	mlkemEcdhe *ecdh.PrivateKey // [uTLS] seperate ecdhe key for pq keyshare in line with Chrome, instead of reusing ecdhe key like stdlib
+
+	// [uTLS] private keys by key share group, for a ClientHello that carries several classical
+	// or several hybrid key shares: ecdhe above is the key of the first classical share only,
+	// mlkem and mlkemEcdhe belong to the last hybrid share. For a hybrid group ecdheKeys holds
+	// the X25519 key of that share. See ecdheKeyFor and mlkemKeyFor.
+	ecdheKeys map[CurveID]*ecdh.PrivateKey
+	mlkemKeys map[CurveID]*mlkem.DecapsulationKey768
 }
 
 const x25519PublicKeySize = 32
